@@ -7,3 +7,4 @@ import WhatIs.Props.C20
 import WhatIs.Props.C07
 import WhatIs.Props.C13
 import WhatIs.Props.C10
+import WhatIs.Props.C18
